@@ -864,6 +864,7 @@ from vt import worldrt
 worldrt._open_trace()
 worldrt.emit('import', __name__)
 _SPEC = json.loads(%r)
+exec(_SPEC.get('prelude') or '')        # what the module does at import time
 if _SPEC.get('import_die') and worldrt.in_child():
     import sys as _s
     _l = _SPEC.get('import_die_layer')
